@@ -298,7 +298,7 @@ def check(ctx: Ctx, cases: List[dict]) -> None:
         want_body = "" if suppress else "".join(case["chunks"])
         want_trailers = flat_trailers(case) if (case["proto"] == "2" and case["te"]) else []
         if want_trailers:
-            sig["trailers_with_te"] = True     # (the input class of finding F80, repaired in 6e9f4aa)
+            sig["trailers_with_te"] = True     # (the input class of finding F80, repaired in 22ee95a)
         if len(o["views"]) != case.get("streams", 1):
             ctx.violation("end_exactly_once", case, {"streams_seen": len(o["views"])}, sig)
         for v in o["views"]:
